@@ -98,7 +98,8 @@ type MWStep struct {
 	RetireFault bool `json:"retire_fault,omitempty"`
 	// VacFault (vacuum): the vacuum runs under a storage fault: "node-deletes" / "version-deletes"
 	// = every DELETE of a node / version object by the vacuuming writer fails, "merged-deletes" = only those of
-	// superseded versions under root/merged/ (the last phase of a vacuum); "from" = every
+	// superseded versions under root/merged/ (the last phase of a vacuum); "nth-list" / "nth-get" = one LIST / GET of the
+	// vacuuming writer fails (the Mask-th LIST, the 4*Mask-th GET); "from" = every
 	// mutating request from the Mask-th on fails
 	VacFault string `json:"vac_fault,omitempty"`
 }
@@ -224,7 +225,7 @@ func genMWCase(t *rapid.T, g mwGenCfg) MWCase {
 			}
 			vs := MWStep{Op: "vacuum", W: w, Cut: cut}
 			if (g.mode == "c09" || g.mode == "c10") && rapid.IntRange(0, 3).Draw(t, "vacfault") == 0 {
-				vs.VacFault = rapid.SampledFrom([]string{"node-deletes", "version-deletes", "merged-deletes", "merged-deletes", "from"}).Draw(t, "vacfaultkind")
+				vs.VacFault = rapid.SampledFrom([]string{"node-deletes", "version-deletes", "merged-deletes", "merged-deletes", "from", "nth-list", "nth-list", "nth-get", "nth-get"}).Draw(t, "vacfaultkind")
 				vs.Mask = rapid.IntRange(1, 8).Draw(t, "vacfaultat")
 			}
 			c.Steps = append(c.Steps, vs)
